@@ -23,6 +23,15 @@ CHECKS = {
     "C05": dict(level=TV, engine="fwsym+pysym", technique="C01 differential for N=0..3 passes + temporal monitors evaluated on every feasible symbolic firmware path; break-guard decided by the real parser on the enumerated placements",
                 text="bounded translation validation of prologue/body splitting for N in 0..3 passes, with configure-before-use / once-per-pass monitors over all feasible firmware paths",
                 note="as C01; monitors need literal pins (true for the skeletons)"),
+    "C06": dict(level="other", engine="fwsym", technique="CrossHair (z3) on the real string-literal escaper + clang front-end acceptance of every enumerated skeleton",
+                text="compiler-front-end acceptance of the C++ emitted for every accepted skeleton of every family (the mandatory first stage of all firmware checks) plus a CrossHair/z3 lemma on string escaping; only the lemma is solver-quantified",
+                note="front end: clang++-14 against mock headers declaring the documented Arduino surface only; real AVR toolchain outside the claim; escaping lemma for printable strings up to the stated length"),
+    "C15": dict(level="other", engine="fwsym+pysym", technique="symbolic execution of the emitted firmware IR over symbolic input signals/clock; spec claims decided per path by SMT; host Button by pysym",
+                text="bounded symbolic checking of button sampling/edges over N passes, potentiometer reads (differential vs CPython) and the real ultrasonic helper over a 2-call history reaching every static state, with symbolic echoes and clock",
+                note="trusted: mock core, clock model (delay and pulseIn advance a lower bound), z3/cvc5; N<=3 passes quick"),
+    "C16": dict(level="other", engine="fwsym", technique="symbolic execution of the emitted buzzer code (IR) with symbolic arguments; tone-protocol claims decided per path by SMT; melodies compared with the score table",
+                text="bounded symbolic specification check of every buzzer call kind over run-time and literal arguments (incl. zero/negative), and of all seven melodies against the score table",
+                note="host Buzzer is a placeholder, so the oracle is the property text; the melody table in the emitter is the definition of the tunes"),
     "C19": dict(level="other", engine="pysym", technique="symbolic execution of the real Python (z3 proxies) + SMT (QF_BV/QF_FP), inductive step",
                 text="bounded symbolic inductive step per class: object state symbolic under the representation invariant, one real method call with symbolic arguments, postconditions decided by z3/cvc5 on every feasible path; obligations the solvers do not decide are reported inconclusive",
                 note="trusted: z3/cvc5, proxy semantics (validated by stock-CPython replay of every counterexample), stated representation invariants; ints |v|<=2^31, finite doubles"),
